@@ -467,6 +467,17 @@ def enumerate_cases(tier):
         C.append(mkcase('option/env/chkfail/' + o, 'option:' + o + ':violating-solution', kind, nl=oknl, env_opts=o))
     C.append(mkcase('option/env/chkfail/feasible-point', 'option:sol:chk:fail=1:feasible-solution', 'ok', nl=oknl, env_opts='sol:chk:fail',
                     script={'x': 'pad:0,0,0', 'obj': '0'}))
+    # options that touch objectives / duals / extra solutions on models that lack those items
+    NOOBJ = Model(V3, acons=[(None, {0: 1.0, 1: 1.0}, -INF, 3.0)])
+    NOCON = Model(V3, obj=('min', None, {0: 1.0, 1: 1.0}))
+    for mn, mm in (('noobj', NOOBJ), ('nocon', NOCON)):
+        for o, scr in (('sol:count=1', {'altsols': 2}), ('sol:count=1 sol:stub=ss', {'altsols': 2}), ('sol:stub=ss', {'altsols': 2}), ('obj:multi=1', None),
+                       ('objno=0', None), ('mip:bestbound=1', None), ('mip:return_gap=7', None), ('alg:iisfind=1', {'iis': 'ramp'}),
+                       ('alg:sens=1', None), ('alg:rays=3', {'rays': 1, 'code': 300}), ('mip:round=7', None), ('alg:basis=3', {'basis': '1'})):
+            if o.startswith('alg:sens'): continue       # not an option of this driver
+            scr = dict(scr or {}, x='pad:0', y='pad:0', obj='0' if mn == 'nocon' else 'none')     # a feasible, consistent answer: the solution check stays silent
+            C.append(mkcase('option/%s/%s' % (mn, o), 'option:valid-on-%s:%s' % (mn, o.split('=')[0]), 'ok', nl=mm.nl(), env_opts=o,
+                            script=scr, expect={'nosolve': False}))
     C.append(mkcase('option/mp_options/bad', 'option:unknown-name(mp_options)', 'badopt', nl=oknl, extra_env={'mp_options': 'foo=1'},
                     expect={'msg': 'foo'}))
     C.append(mkcase('option/mp_options/valid', 'option:valid(mp_options)', 'ok', nl=oknl, extra_env={'mp_options': 'timing=1'}))
